@@ -32,7 +32,7 @@ type tierCfg struct {
 }
 
 var tiers = map[string]tierCfg{
-	"quick":    {MaxPaths: 30000, TimeoutMs: 10000, MaxSteps: 30_000_000, MaxDec: 4000, EnumCap: 80, CrossN: 12, NativeN: 4, Deadline: 9 * time.Minute},
+	"quick":    {MaxPaths: 30000, TimeoutMs: 30000, MaxSteps: 30_000_000, MaxDec: 4000, EnumCap: 80, CrossN: 12, NativeN: 4, Deadline: 9 * time.Minute},
 	"thorough": {MaxPaths: 3000000, TimeoutMs: 120000, MaxSteps: 200_000_000, MaxDec: 20000, EnumCap: 300, CrossN: 400, NativeN: 12, Deadline: 170 * time.Minute},
 }
 
